@@ -727,7 +727,7 @@ pub fn run(ctx: &Ctx) {
         }
     } else {
         let mut r = Rng::new(ctx.seed ^ 0xC09);
-        let n = if ctx.thorough() { 4000 } else { 600 };
+        let n = if ctx.thorough() { 3000 } else { 1000 };
         for i in 0..n {
             let (d, b) = match i % 10 {
                 0 => (1, 6),
@@ -771,7 +771,7 @@ pub fn run(ctx: &Ctx) {
             emit_lex(&mut out, b, "fixed");
         }
         let mut r = Rng::new(ctx.seed ^ 0x1E7);
-        let n = if ctx.thorough() { 12000 } else { 1500 };
+        let n = if ctx.thorough() { 9000 } else { 3000 };
         for _ in 0..n {
             let b = gen_lex_text(&mut r);
             emit_lex(&mut out, &b, "random_text");
@@ -818,7 +818,7 @@ pub fn run(ctx: &Ctx) {
         }
     } else {
         let mut r = Rng::new(ctx.seed ^ 0x1AC);
-        let n = if ctx.thorough() { 1500 } else { 200 };
+        let n = if ctx.thorough() { 1200 } else { 400 };
         for i in 0..n {
             let mut budget = 30;
             let mut t = gen_tree(&mut r, 3, &mut budget);
